@@ -99,6 +99,11 @@ class BufInterp(FinamInterp):
     def ext_call(self, name, args, kwargs, node):
         if name in ("np.stack", "numpy.stack"):
             return Sym("stack", tuple(args[0]))
+        if name in ("copy.copy", "copy.deepcopy"):
+            return args[0]  # a copy of a value is that value
+        if name in ("np.copy", "numpy.copy", "np.array", "numpy.array", "np.asarray", "numpy.asarray", "np.asanyarray") and args and isinstance(args[0], Sym):
+            # numpy's converters return a bare ndarray for a quantity / masked array (subok=False): units and mask are gone
+            return Sym("bare_ndarray", args[0])
         if name.split(".")[-1] in ("array_equal", "allclose", "isclose", "array_equiv", "may_share_memory", "shares_memory"):
             return self.decide(Sym(name.split(".")[-1], *args), node)  # value dependent: both outcomes are explored
         return super().ext_call(name, args, kwargs, node)
